@@ -26,6 +26,8 @@ fn registry(id: &str) -> Option<Arc<dyn Check>> {
             let id: &'static str = ["C01", "C02", "C03", "C04", "C05", "C06"].into_iter().find(|x| *x == id).unwrap();
             Arc::new(checks::PathProp { id })
         }
+        "C07" => Arc::new(checks::C07),
+        "C08" => Arc::new(checks::C08),
         _ => return None,
     })
 }
